@@ -70,7 +70,8 @@ CLAIMED.update({
                 "depends on a rule only through matches() and the example lists) and validate_optimised_in_scope (inside the "
                 "executable scope of the end-to-end C01 theorem, all 16 switch sets, validate() of the optimised rule returns "
                 "exactly what validate() of the loaded rule returns); C13_scope: the same for the widest proved scope "
-                "(Scope3.c01_scope_wide: nested blocks, quantified lists, quantifiers over identifiers; also at the crate's own map order).",
+                "(Scope3.c01_scope_wide: nested blocks, quantified lists, quantifiers over identifiers; also at the crate's own map order); "
+                "C13_outside: for EVERY loadable rule outside the listed classes D13/D16/D17 of C01.",
         "note": TB + "The crate returns one joined message; that it names each failing example is checked by counting the per-example phrases in it.",
         "technique": "Coq proof (induction over the example lists) + differential runs with an in-harness cross-check of validate() against matches()",
     },
